@@ -1,8 +1,8 @@
 (* C02 — Everything an endpoint emits is a conformant RFC 6455 / RFC 7692 frame stream.
    Statements only; proofs in Proofs/FrameP.v, Proofs/CloseCodecP.v, Proofs/WriterP.v. *)
-From Coq Require Import List NArith ZArith Lia.
+From Coq Require Import List NArith ZArith Bool Lia.
 From WS Require Import Base.Words Gen.Consts Gen.CloseCode Model.Mask Model.Frame Model.Proto Model.CloseCodec Model.Writer Model.RefDecoder
-  Proofs.FrameP Proofs.CloseCodecP Proofs.WriterP Proofs.RoundTripP Gen.FrameCode Proofs.GenTieP.
+  Proofs.FrameP Proofs.CloseCodecP Proofs.WriterP Proofs.RoundTripP Gen.FrameCode Gen.WriteCode Proofs.GenTieP.
 Import ListNotations.
 Open Scope N_scope.
 
@@ -86,3 +86,15 @@ Theorem C02_length_bytes_is_source : forall h,
   length (enc_ext h) = Z.to_nat (gen_len_ext (Z.of_N (h_plen h))).
 Proof. exact enc_ext_is_source. Qed.
 Print Assumptions C02_length_bytes_is_source.
+
+(* the header bits of every frame the model's writer emits are the ones writeFrame (write.go, translated into
+   Gen/WriteCode.v on every run) sets: RSV1 only with compression on a text / binary frame, MASK exactly for a client,
+   RSV2 = RSV3 = 0 *)
+Theorem C02_header_bits_are_source : forall keys cfg s fin fl opc p,
+  let s' := write_frame_raw keys cfg s fin fl opc p in
+  w_close_sent s' = w_close_sent s || gen_sets_close_sent (Z.of_N opc) /\
+  exists h, w_out s' = w_out s ++ [(h, p)] /\
+            h_rsv1 h = gen_rsv1 fl (Z.of_N opc) /\ h_masked h = gen_masked (role_eqb (wc_role cfg) Client) /\
+            h_rsv2 h = false /\ h_rsv3 h = false /\ h_fin h = fin /\ h_opc h = opc /\ h_plen h = N.of_nat (length p).
+Proof. exact write_frame_raw_is_source. Qed.
+Print Assumptions C02_header_bits_are_source.
